@@ -84,14 +84,16 @@ def gen_case(rng, tier):
     ops = []
     for _ in range(n_ops):
         name = rng.choice(OPS)
+        lay = rng.choice([None, None, None, "F", "T", "strided"])
         if name == "set_weights":
-            ops.append({"op": name, "v": L(gen_simplex(rng, c))})
+            ops.append({"op": name, "v": L(gen_simplex(rng, c)), "lay": lay})
         elif name == "set_means":
-            ops.append({"op": name, "v": L(sig6(rs.randn(c, d) * 2 * scale))})
+            ops.append({"op": name, "v": L(sig6(rs.randn(c, d) * 2 * scale)), "lay": lay})
         elif name == "set_variances":
-            ops.append({"op": name, "v": L(sig6(rs.uniform(0.05, 4.0, size=(c, d)) * scale2))})
+            ops.append({"op": name, "v": L(sig6(rs.uniform(0.05, 4.0, size=(c, d)) * scale2)),
+                        "lay": lay})
         elif name == "set_floor":
-            ops.append({"op": name, "v": _rand_floor(rng, rs, c, d, scale2)})
+            ops.append({"op": name, "v": _rand_floor(rng, rs, c, d, scale2), "lay": lay})
         elif name == "em_step":
             n = rng.randint(max(2, min(c, 10)), 12)
             X = sig6(means[rs.randint(0, c, size=n)] + rs.randn(n, d) * scale * 1.2)
@@ -155,6 +157,23 @@ def sample_view(case):
 
 def _floor(v):
     return A(v) if isinstance(v, list) else v
+
+
+def _lay(o, arr):
+    """Arrays handed to the setters come in every valid memory layout."""
+    lay = o.get("lay")
+    if lay == "F" and arr.ndim == 2:
+        return np.asfortranarray(arr)
+    if lay == "T" and arr.ndim == 2:   # a (features, components) table handed over as .T
+        return np.ascontiguousarray(arr.T).T
+    if lay == "strided":
+        big = np.zeros(tuple(2 * n for n in arr.shape))
+        sl = tuple(slice(None, None, 2) for _ in arr.shape)
+        big[sl] = arr
+        return big[sl]
+    if lay == "f32":
+        return arr.astype(np.float32).astype(float)
+    return arr
 
 
 def _build(case):
@@ -243,11 +262,12 @@ def run_case(case, replay=None):
             try:
                 with np.errstate(all="ignore"):
                     if name == "set_weights":
-                        m.weights = A(o["v"])
+                        m.weights = _lay(o, A(o["v"]))
                     elif name == "set_means":
-                        m.means = A(o["v"])
+                        m.means = _lay(o, A(o["v"]))
                     elif name == "set_variances":
-                        arr = A(o["v"])
+                        arr = _lay(o, A(o["v"]))
+                        rec.probe("non_c_contiguous_array_assigned", o.get("lay") is not None)
                         held.append(arr)  # the caller keeps the array it assigned
                         m.variances = arr
                     elif name == "set_floor":
@@ -256,7 +276,8 @@ def run_case(case, replay=None):
                         rec.probe("floor_raised", bool((new > old).any()))
                         rec.probe("floor_lowered", bool((new < old).any()))
                         before = np.array(m.variances, float)
-                        m.variance_thresholds = _floor(o["v"])
+                        fl = _floor(o["v"])
+                        m.variance_thresholds = _lay(o, fl) if isinstance(fl, np.ndarray) else fl
                         rec.probe("floor_clamped_something",
                                   bool((np.asarray(m.variances) != before).any()))
                     elif name == "em_step":
